@@ -591,3 +591,33 @@ def path_str(root, path):
     r = {"arg": "arg%d" % (root[1] if len(root) > 1 else 0), "argval": "argval%d" % (root[1] if len(root) > 1 else 0), "local": "_%d" % (root[1] if len(root) > 1 else 0),
          "static": "static %s" % (root[1] if len(root) > 1 else ""), "unk": "<unknown>"}[root[0]]
     return r + "".join("." + str(x) for x in path)
+
+
+def site_free_desc(body, text):
+    """rewrite an expression rendering so that it does not depend on where the code lives or how locals are called: `argN.` roots
+    become the (reference-free, generics-free) type of parameter N; parameter and local debug names become `p<type>` / `v<type>`"""
+    import re as _re
+
+    def short(t):
+        t = t.replace("&mut ", "").replace("&", "").replace("'_ ", "").strip()
+        t = _re.sub(r"<.*>", "", t)
+        return t.split("::")[-1]
+
+    def ty_of(n):
+        try:
+            return short(body["locals"][int(n)]["ty"]) or ("arg" + n)
+        except (IndexError, ValueError, KeyError):
+            return "arg" + n
+    text = _re.sub(r"\barg(\d+)(?=[.\]])", lambda m: ty_of(m.group(1)), text)
+    names = {}
+    for d in body.get("debug", []) or []:
+        nm = d.get("name")
+        pl = d.get("place") or {}
+        l = pl.get("l")
+        if nm and isinstance(l, int) and not pl.get("p") and l < len(body["locals"]) and _re.fullmatch(r"[A-Za-z_][A-Za-z0-9_]*", nm) and nm != "self":
+            names[nm] = ("p" if 1 <= l <= body.get("argc", 0) else "v") + "<" + short(body["locals"][l]["ty"]) + ">"
+    text = _re.sub(r"\{closure#\d+\}", "{closure}", text)
+    if names:
+        alt = "|".join(sorted(map(_re.escape, names), key=len, reverse=True))
+        text = _re.sub(r"(?<![A-Za-z0-9_.:<])(?:var:)?(" + alt + r")(?![A-Za-z0-9_(<:])", lambda m: names[m.group(1)], text)
+    return text
